@@ -301,6 +301,11 @@ def do_check(run: Run, args):
                 continue
             ran += 1
             fails = [(cl_, w_) for cl_, w_ in native_failures(case, c) if not tagged_elsewhere(c, cl_, run.pid)]
+            art = harness_artifact(ctx, c, case)
+            if art:
+                if art not in run.notes:
+                    run.notes.append(art)
+                continue
             for cl, why in fails:
                 bad += 1
                 src = next((x for x in cases if x["id"] == case["id"]), {})
@@ -369,6 +374,26 @@ def do_check(run: Run, args):
         os.makedirs(os.path.dirname(p), exist_ok=True)
         json.dump(allb, open(p, "w"), indent=1, sort_keys=True)
     return finish(run, mod, total_obl, discharged)
+
+
+def harness_artifact(ctx, c, case):
+    """the harness builds objects without running constructors; an AttributeError for an attribute that the class's own
+    constructor chain would have set, and that the contract never declared, says nothing about the function under test"""
+    import re as _re
+    exc = case.get("exception") or ""
+    m = _re.match(r"AttributeError: '(\w+)' object has no attribute '(\w+)'", exc)
+    if not m:
+        return None
+    cn, attr = m.group(1), m.group(2)
+    cf = ctx.facts.cls(cn)
+    if cf is None:
+        return None
+    declared = any(attr in c.class_fields.get(k.name, {}) for k in cf.mro) or any(p.endswith("." + attr) for p in c.types)
+    set_in_init = any(attr in k.inst_attrs for k in cf.mro)
+    if set_in_init and not declared:
+        return (f"native check of {c.ident} skipped for some samples: the real code reads {cn}.{attr}, which the class's constructor sets "
+                f"and the contract does not declare (objects are built without constructors) -- bounded evidence reduced, not a violation")
+    return None
 
 
 def tagged_elsewhere(c, clause, pid):
